@@ -18,7 +18,7 @@ PROP = dict(
           "what the route uses, or a hop that had parallel channels with a different policy). "
           "Distinct = distinct (graph, request, phase)."),
     assumptions=[
-        "fee rates <= 1e6 ppm, |inbound rate| <= 1e6 ppm, amounts <= 7e10 msat: products fit 64 bits, so lnd's uint64/int64 fee arithmetic has no wrap-around in the generated domain",
+        "fee rates <= 1e6 ppm, |inbound rate| <= 1e6 ppm, requested amounts <= 7e10 msat; a returned route whose total amount exceeds 5e12 msat (fees compounding over extreme policies) is counted outside_domain and not judged: up to there lnd's uint64/int64 fee products cannot wrap",
         "for the node's own channels the bandwidth hint replaces the disabled flag (documented in graphParams.bandwidthHints); a missing hint means 'assume enough'",
         "OutgoingChannelIDs is only generated when the source is the own node (with a foreign source lnd applies the restriction to the own node's channels, not to the first hop)",
         "LastHop is not combined with blinded tails (the pathfinding target of a multi-hop blinded path is a dummy NUMS hop)",
